@@ -17,7 +17,7 @@ use passage_packets::login::serverbound as login_in;
 use passage_packets::status::clientbound as status_out;
 use passage_packets::status::serverbound as status_in;
 use passage_packets::{
-    AsyncReadPacket, AsyncWritePacket, INITIAL_BUFFER_SIZE, ReadPacket, State, VarInt,
+    AsyncWritePacket, INITIAL_BUFFER_SIZE, ReadPacket, State, VarInt,
 };
 use passage_packets::{Packet, WritePacket};
 use std::fmt::Debug;
@@ -83,6 +83,12 @@ pub struct Connection<S, Stat, Disc, Filt, Stra, Auth, Loca> {
     /// Framed bytes that were not yet accepted by the stream. A frame stays queued here until it
     /// was written completely, such that dropping a pending write (select!) never tears a frame.
     unsent: Vec<u8>,
+    /// The bytes received of the frame that is currently being read (length prefix included). They are
+    /// kept here, not in a future, such that a partially received frame survives the keep-alive tick
+    /// and the end of a raced adapter call (select!).
+    inbound: Vec<u8>,
+    /// Whether the client closed its side of the stream.
+    inbound_eof: bool,
     /// Whether the client missed its keep-alive. The verdict is recorded before the client is told,
     /// such that it stands if the keep-alive handling is dropped (select!) while telling it.
     keep_alive_missed: MissedKeepAlive,
@@ -136,6 +142,8 @@ where
             stream: CipherStream::from_stream(stream),
             buffer: Vec::with_capacity(INITIAL_BUFFER_SIZE),
             unsent: Vec::new(),
+            inbound: Vec::new(),
+            inbound_eof: false,
             keep_alive_missed: MissedKeepAlive::No,
             // adapters
             status_adapter,
@@ -176,13 +184,75 @@ where
         self
     }
 
+    /// Reads a VarInt of at most five bytes from the front of `bytes`: the value and the number of
+    /// bytes it took, or `None` if `bytes` ends inside it.
+    fn peek_varint(bytes: &[u8]) -> Option<(VarInt, usize)> {
+        let mut value: VarInt = 0;
+        for (i, byte) in bytes.iter().take(5).enumerate() {
+            value |= VarInt::from(byte & 0b0111_1111) << (7 * i);
+            if byte & 0b1000_0000 == 0 || i == 4 {
+                return Some((value, i + 1));
+            }
+        }
+        None
+    }
+
+    /// The size of the length prefix and the end of the frame within `inbound`, once the prefix is
+    /// complete. An illegal length is refused as soon as it is known.
+    fn inbound_frame(&self) -> Result<Option<(usize, usize)>, Error> {
+        let Some((length, prefix)) = Self::peek_varint(&self.inbound) else {
+            return Ok(None);
+        };
+        if length <= 0 || length > self.max_packet_length {
+            debug!(
+                length,
+                "packet length should be between 0 and {}", self.max_packet_length
+            );
+            return Err(passage_packets::Error::IllegalPacketLength.into());
+        }
+        let length = usize::try_from(length).expect("length is always positive");
+        Ok(Some((prefix, prefix + length)))
+    }
+
+    /// Reads at most `want` more bytes of the current frame into `inbound`. Cancel safe: either
+    /// nothing was read or what was read is in `inbound`.
+    async fn fill_inbound(
+        stream: &mut CipherStream<S, Aes128Cfb8Enc, Aes128Cfb8Dec>,
+        inbound: &mut Vec<u8>,
+        inbound_eof: &mut bool,
+        want: usize,
+    ) -> Result<(), Error> {
+        let mut chunk = [0u8; 4096];
+        let want = want.min(chunk.len());
+        let read = stream.read(&mut chunk[..want]).await?;
+        if read == 0 {
+            *inbound_eof = true;
+        } else {
+            inbound.extend_from_slice(&chunk[..read]);
+        }
+        Ok(())
+    }
+
     #[instrument(skip_all, fields(packet_length = field::Empty, packet_id = field::Empty))]
     async fn receive_packet(
         &mut self,
         keep_alive: bool,
     ) -> Result<(VarInt, Cursor<Vec<u8>>), Error> {
         // wait for the next packet, send keep-alive packets as necessary
-        let length = loop {
+        let (prefix, end) = loop {
+            // is the frame (or, at the end of the stream, what there is of it) complete?
+            let frame = self.inbound_frame()?;
+            let want = match frame {
+                Some((prefix, end)) if self.inbound.len() >= end || self.inbound_eof => {
+                    break (prefix, end.min(self.inbound.len()));
+                }
+                None if self.inbound_eof => {
+                    return Err(std::io::Error::from(std::io::ErrorKind::UnexpectedEof).into());
+                }
+                Some((_, end)) => end - self.inbound.len(),
+                None => 1,
+            };
+
             tokio::select! {
                 // use biased selection such that branches are checked in order
                 biased;
@@ -200,49 +270,29 @@ where
                     let packet = conf_out::KeepAlivePacket { id };
                     self.send_packet(packet).await?;
                 },
-                // await the next packet in, reading the packet size (expect fast execution)
-                maybe_length = self.stream.read_varint().instrument(tracing::info_span!("read_packet_length", otel.kind = "server")) => {
-                    break maybe_length?;
+                // await more bytes of the next packet (nothing is read beyond the frame, such that
+                // encryption can be switched on between two frames)
+                read = Self::fill_inbound(&mut self.stream, &mut self.inbound, &mut self.inbound_eof, want)
+                    .instrument(tracing::info_span!("read_packet", otel.kind = "server")) => {
+                    read?;
                 },
             }
         };
 
-        // check the length of the packet for any following content
-        if length <= 0 || length > self.max_packet_length {
-            debug!(
-                length,
-                "packet length should be between 0 and {}", self.max_packet_length
-            );
-            return Err(passage_packets::Error::IllegalPacketLength.into());
-        }
-
         // track metrics
-        let packet_size = u64::try_from(length).expect("length is always positive");
+        let packet_size = u64::try_from(end - prefix).expect("usize always fits into u64");
         metrics::packet_size::record_serverbound(packet_size);
         tracing::Span::current().record("packet_length", packet_size);
 
-        // the frame is exactly `length` bytes: the encoded packet id followed by the packet body
-        let mut frame = (&mut self.stream).take(length as u64);
-
-        // extract the encoded packet id
-        let id = frame
-            .read_varint()
-            .instrument(tracing::info_span!("read_packet_id", otel.kind = "server"))
-            .await?;
+        // the frame is the encoded packet id followed by the packet body
+        let mut frame: Vec<u8> = self.inbound.drain(..end).skip(prefix).collect();
+        let Some((id, id_length)) = Self::peek_varint(&frame) else {
+            return Err(std::io::Error::from(std::io::ErrorKind::UnexpectedEof).into());
+        };
         tracing::Span::current().record("packet_id", id);
+        let buffer = frame.split_off(id_length);
 
-        // read the remaining packet bytes (advancing stream)
-        let mut buffer = vec![];
-        frame
-            .read_to_end(&mut buffer)
-            .instrument(tracing::info_span!(
-                "read_packet_bytes",
-                otel.kind = "server"
-            ))
-            .await?;
-        let buf = Cursor::new(buffer);
-
-        Ok((id, buf))
+        Ok((id, Cursor::new(buffer)))
     }
 
     #[instrument(skip_all)]
